@@ -13,7 +13,7 @@ from vt.mon import contracts, hooks
 PROP = 'C06'
 TITLE = 'regexp -> NFA and DFA -> regexp'
 SHARDS = {'quick': 8, 'thorough': 32}
-TIMEOUT = {'quick': 600, 'thorough': 3000}
+TIMEOUT = {'quick': 420, 'thorough': 3000}
 REQUIRED = ['regexp_to_nfa', 'dfa_to_regexp']          # the elimination-order probe is auxiliary (depends on local variable names)
 EXHAUSTIVE_NOTE = 'all expression trees with <=6 nodes (regexp->NFA) and all total DFAs with <=3 states over <=2 symbols (DFA->regexp)'
 RULE = ('regexp->NFA: enumerated trees <=6 nodes + random deep trees; DFA->regexp: enumerated DFAs <=3 states + random <=5 states (<=6 thorough) + isomorphic '
@@ -123,7 +123,7 @@ def check_case(rec, case):
         # the same expression OBJECT converted again after one of its nodes was changed in place, and an expression built
         # from SHARED sub-expression objects (dfa_to_regexp returns such DAGs): judged against the content at call time
         import gambatools.regexp as gr
-        if isinstance(r, (gr.Sum, gr.Concat)) and case['cls'].startswith('random'):
+        if isinstance(r, (gr.Sum, gr.Concat)) and case['cls'].startswith('random') and rx.size_iter(t) <= 40:
             r.left, r.right = r.right, gr.Iteration(r.left)
             o = call(ra.regexp_to_nfa, r)
             if not o.ok:
